@@ -46,6 +46,7 @@
     0x00001000 /* ptrdiff_t (d, i, u, o, x, X); ptrdiff_t* (n) */
 #define OPS_LEN_LONGFP 0x00002000 /* long double (f, F, e, E, g, G, a, A) */
 #define OPS_SPEC_UPPER_CASE 0x00004000 /* specifier is tall */
+#define OPS_SPEC_POINTER 0x00008000    /* specifier is p */
 
 /**
  * Options for print_s
@@ -138,8 +139,13 @@ static int print_i(void (*printchar_handler)(void *d, int c),
     prefix = is_signed && ((long long int)u < 0)         ? (u = 0ULL - u, "-")
              : is_signed && (ops & OPS_FLAG_WITH_SIGN)   ? "+"
              : is_signed && (ops & OPS_FLAG_EXTRA_SPACE) ? " "
-             : (base == 8) && (ops & OPS_FLAG_WITH_SPEC) ? "0"
-             : (base == 16) && (ops & OPS_FLAG_WITH_SPEC)
+             /* '#': a zero value gets no 0x, and a leading 0 only if it has no
+              * digit at all (explicit precision 0); %p always shows 0x */
+             : (base == 8) && (ops & OPS_FLAG_WITH_SPEC) &&
+                     (u || ((ops & OPS_PREC_IS_GIVEN) && !min_len))
+                 ? "0"
+             : (base == 16) && (ops & OPS_FLAG_WITH_SPEC) &&
+                     (u || (ops & OPS_SPEC_POINTER))
                  ? ops & OPS_SPEC_UPPER_CASE ? "0X" : "0x"
                  : "";
     pc = 0;
@@ -620,7 +626,8 @@ int __printf(void (*printchar_handler)(void *d, int c),
                           0,
                           width,
                           sizeof tmp.vp * 2,
-                          ops | (OPS_FLAG_WITH_SPEC | OPS_FLAG_ZERO_PAD),
+                          ops | (OPS_FLAG_WITH_SPEC | OPS_FLAG_ZERO_PAD |
+                                 OPS_SPEC_POINTER),
                           16);
             break;
         case 'n':
